@@ -8,6 +8,7 @@ import (
 	"github.com/anishathalye/porcupine"
 
 	"rendsim/kernel"
+	"rendsim/simnet"
 	"rendsim/stack"
 	"rendsim/wire"
 )
@@ -39,6 +40,7 @@ type concEnv struct {
 	stamp     int64
 	res       *Result
 	lastOwner string
+	ghost     map[int]bool
 }
 
 // binary multi-key gets in concurrent programs use the NOOP-terminated form so that
@@ -98,6 +100,25 @@ func (e *concEnv) sendEvents() []kernel.Event {
 	for ci := range e.conns {
 		ci := ci
 		if e.cur[ci] != nil || e.next[ci] >= len(e.plan.Progs[ci]) {
+			continue
+		}
+		if e.ghost[ci] {
+			// a ghost writes everything it has left in one go and disappears without
+			// reading: whatever rend still owes it meets a dead socket
+			evs = append(evs, kernel.Event{Label: fmt.Sprintf("ghost c%d", ci), Prio: 3, Owner: e.conns[ci].Name, Do: func() {
+				var data []byte
+				for _, op := range e.plan.Progs[ci][e.next[ci]:] {
+					data = append(data, encode(e.plan.Conns[ci].Proto, op)...)
+				}
+				e.next[ci] = len(e.plan.Progs[ci])
+				e.w.Deliver(e.conns[ci], data)
+				mode := simnet.PeerClosed
+				if e.w.Ch.Bool(1, 3, "ghost silent") {
+					mode = simnet.PeerClosedSilent
+				}
+				e.conns[ci].C.PeerClose(mode)
+				e.w.Stat.FaultsFired["ghost_disconnect"]++
+			}})
 			continue
 		}
 		evs = append(evs, kernel.Event{Label: fmt.Sprintf("send c%d", ci), Prio: 3, Owner: e.conns[ci].Name, Do: func() {
